@@ -125,13 +125,13 @@ theorem afterPrepared_chosen {env : Env} {c : Call} {p : Prepared} {d : Option N
           exact ⟨m, r, hr, mkReq_served hm⟩
     | none =>
       simp only [hj] at h
-      cases hm : mapParts (fun ms => oneReq env c ms d) parts with
+      cases hm : mapParts (fun ms => oneReq env c ms (perSpecDrop c d)) parts with
       | error e => simp [hm, Except.map] at h
       | ok out =>
         simp only [hm, Except.map, Except.ok.injEq] at h
         subst h
         intro q hq
-        obtain ⟨kq, hkq, rfl⟩ := List.mem_map.mp hq
+        obtain ⟨kq, hkq, rfl⟩ := List.mem_map.mp (mem_twice.mp hq)
         obtain ⟨p0, _, hp0⟩ := mapParts_ok_mem _ parts out hm kq hkq
         exact oneReq_chosen hp0
 
@@ -210,13 +210,13 @@ theorem afterPrepared_consistent {env : Env} {c : Call} {p : Prepared} {d : Opti
           exact hc
     | none =>
       simp only [hj] at h
-      cases hm : mapParts (fun ms => oneReq env c ms d) parts with
+      cases hm : mapParts (fun ms => oneReq env c ms (perSpecDrop c d)) parts with
       | error e => simp [hm, Except.map] at h
       | ok out =>
         simp only [hm, Except.map, Except.ok.injEq] at h
         subst h
         intro q hq
-        obtain ⟨kq, hkq, rfl⟩ := List.mem_map.mp hq
+        obtain ⟨kq, hkq, rfl⟩ := List.mem_map.mp (mem_twice.mp hq)
         obtain ⟨p0, _, hp0⟩ := mapParts_ok_mem _ parts out hm kq hkq
         exact oneReq_consistent hp0
 
